@@ -83,7 +83,7 @@ def build_facts(config="default", repo=REPO, quiet=False):
     os.makedirs(CACHE, exist_ok=True)
     hsh, nfiles = repo_hash(repo)
     d = os.path.join(CACHE, "facts-%s-%s" % (hsh, config))
-    lockf = open(os.path.join(CACHE, "lock-%s" % config), "w")
+    lockf = open(os.path.join(CACHE, "lock-%s-%s" % (hsh, config)), "w")
     fcntl.flock(lockf, fcntl.LOCK_EX)
     try:
         if os.path.exists(os.path.join(d, "OK")):
